@@ -1880,8 +1880,10 @@ static Chunk *output_comment_c(Chunk *first)
       cmt.cont_text = options::cmt_star_cont() ? " * " : "   ";
       LOG_CONTTEXT();
 
+      // a comment cut short by the end of the file ('/*/') is shorter than a complete '/**/'
       bool replace_comment = (  options::cmt_trailing_single_line_c_to_cpp()
                              && first->IsLastChunkOnLine()
+                             && first->Len() >= 4
                              && first->Str().at(2) != '*');
 
       if (  replace_comment
